@@ -61,3 +61,30 @@ Definition chain_read_pinned (buf : list Z) : M (@cw R1S RWS) (io Z * list Z) :=
   | inr buf_5 => call_rw_read R2 buf_5
   end.
 End PCH.
+
+(* AsyncReadWriteChain::poll_read as it was before `fix:` commit 647448a: no `had_capacity` *)
+From FB Require Import Sem.ReadBuf Model.Tokio.
+Section PACH.
+Context {R1S RWS : Type}.
+Variable chk : bool.
+Variable R1 : AsyncReader R1S.
+Variable R2 : AsyncReader RWS.
+Definition achain_poll_read_pinned (buf : rb) : M (@acw R1S RWS) (poll (io unit) * rb) :=
+  some_1 <- aget_reader_is_some ;;
+  k_2 <- (if some_1 then
+            let before_len := zlen (rb_filled_bytes buf) in
+            q_3 <- acall_reader R1 buf ;;
+            match q_3 with
+            | (PrPending, buf_4) => ret (inl (PPending, buf_4))
+            | (PrErr e, buf_4) => ret (inl (PReady (Err e), buf_4))
+            | (PrOk, buf_4) =>
+                dif_5 <- usub chk (zlen (rb_filled_bytes buf_4)) before_len ;;
+                if (0 <? dif_5) then ret (inl (PReady (Ok tt), buf_4))
+                else aset_reader_none ;;; ret (inr buf_4)
+            end
+          else ret (inr buf)) ;;
+  match k_2 with
+  | inl r => ret r
+  | inr buf_6 => q_7 <- acall_rw R2 buf_6 ;; ret (poll_of (fst q_7), snd q_7)
+  end.
+End PACH.
